@@ -1,0 +1,107 @@
+//go:build verif
+
+package xheap
+
+// Contracts for the deductive verifier in /verif (properties C05 and C15). Only part of the build
+// under the tag `verif`. The predicates wfH, heapOK, mapsTo, synced, swoF ... are those of
+// internal/heap/verif_contracts.go.
+
+//@ pred wfX(h) = h.inner != nil && wfH(h.inner)
+
+//@ func New
+//@   props C05
+//@   requires less != nil && swoF(less, initial)
+//@   modifies elems(initial)
+//@   ensures result.inner != nil && fresh(result.inner) && wfX(result) && result.inner.a == initial && result.inner.gen == 0
+//@   ensures mapsTo(result.inner) && result.inner.indexChanged.bn == len(initial) && result.inner.indexChanged.gone == -1
+//@   ensures forall j int {result.inner.indexChanged.base[j]} :: 0 <= j && j < len(initial) ==> result.inner.indexChanged.base[j] == old(initial[j])
+//@   ensures forall a T, b T {result.inner.lessFn(a, b)} :: result.inner.lessFn(a, b) == less(a, b)
+
+//@ func NewCmp
+//@   props C05
+//@   requires compare != nil
+//@   requires (forall a T {compare(a, a)} :: compare(a, a) == 0)
+//@   requires (forall a T, b T {compare(a, b)} :: (compare(a, b) < 0) == (compare(b, a) > 0))
+//@   requires (forall a T, b T, c T {compare(a, b), compare(b, c)} :: compare(a, b) <= 0 && compare(b, c) <= 0 ==> compare(a, c) <= 0)
+//@   requires (forall a T, b T, c T {compare(a, b), compare(b, c)} :: compare(a, b) < 0 && compare(b, c) <= 0 ==> compare(a, c) < 0)
+//@   requires (forall a T, b T, c T {compare(a, b), compare(b, c)} :: compare(a, b) <= 0 && compare(b, c) < 0 ==> compare(a, c) < 0)
+//@   modifies elems(initial)
+//@   ensures result.inner != nil && fresh(result.inner) && wfX(result) && result.inner.a == initial
+//@   ensures mapsTo(result.inner) && result.inner.indexChanged.bn == len(initial) && result.inner.indexChanged.gone == -1
+//@   ensures forall j int {result.inner.indexChanged.base[j]} :: 0 <= j && j < len(initial) ==> result.inner.indexChanged.base[j] == old(initial[j])
+//@   ensures forall a T, b T {result.inner.lessFn(a, b)} :: result.inner.lessFn(a, b) == (compare(a, b) < 0)
+
+//@ func Heap.Len
+//@   props C05
+//@   requires h.inner != nil
+//@   ensures result == len(h.inner.a)
+
+//@ func Heap.Grow
+//@   props C05
+//@   requires wfX(h)
+//@   modifies h.inner.a
+//@   panics when n < 0
+//@   ensures wfX(h) && len(h.inner.a) == old(len(h.inner.a)) && h.inner.gen == old(h.inner.gen)
+//@   ensures forall k int {h.inner.a[k]} :: 0 <= k && k < len(h.inner.a) ==> h.inner.a[k] == old(h.inner.a[k])
+
+//@ func Heap.Shrink
+//@   props C05
+//@   requires wfX(h)
+//@   modifies h.inner.a
+//@   panics when n < 0
+//@   ensures wfX(h) && len(h.inner.a) == old(len(h.inner.a)) && h.inner.gen == old(h.inner.gen)
+//@   ensures forall k int {h.inner.a[k]} :: 0 <= k && k < len(h.inner.a) ==> h.inner.a[k] == old(h.inner.a[k])
+
+//@ func Heap.Push
+//@   props C05
+//@   requires wfX(h) && !h.inner.indexChanged.tracks
+//@   modifies h.inner.a, h.inner.gen, elems(h.inner.a), h.inner.indexChanged.N, h.inner.indexChanged.f, h.inner.indexChanged.g, h.inner.indexChanged.base, h.inner.indexChanged.bn, h.inner.indexChanged.gone
+//@   ensures wfX(h) && len(h.inner.a) == old(len(h.inner.a)) + 1 && h.inner.gen > old(h.inner.gen) && h.inner.lessFn == old(h.inner.lessFn) && h.inner.indexChanged == old(h.inner.indexChanged)
+//@   ensures mapsTo(h.inner) && h.inner.indexChanged.bn == old(len(h.inner.a)) + 1 && h.inner.indexChanged.gone == -1 && h.inner.indexChanged.base[old(len(h.inner.a))] == item
+//@   ensures forall j int {h.inner.indexChanged.base[j]} :: 0 <= j && j < old(len(h.inner.a)) ==> h.inner.indexChanged.base[j] == old(h.inner.a[j])
+
+//@ func Heap.Pop
+//@   props C05
+//@   requires wfX(h)
+//@   modifies h.inner.a, h.inner.gen, elems(h.inner.a), h.inner.indexChanged.N, h.inner.indexChanged.f, h.inner.indexChanged.g, h.inner.indexChanged.base, h.inner.indexChanged.bn, h.inner.indexChanged.gone, h.inner.indexChanged.lo
+//@   panics when len(h.inner.a) == 0
+//@   ensures wfX(h) && len(h.inner.a) == old(len(h.inner.a)) - 1 && h.inner.gen > old(h.inner.gen) && result == old(h.inner.a[0]) && h.inner.lessFn == old(h.inner.lessFn) && h.inner.indexChanged == old(h.inner.indexChanged)
+//@   ensures mapsTo(h.inner) && h.inner.indexChanged.bn == old(len(h.inner.a)) && h.inner.indexChanged.gone == 0
+//@   ensures forall j int {h.inner.indexChanged.base[j]} :: 0 <= j && j < old(len(h.inner.a)) ==> h.inner.indexChanged.base[j] == old(h.inner.a[j])
+//@   ensures forall k int {h.inner.a[k]} :: 0 <= k && k < len(h.inner.a) ==> !h.inner.lessFn(h.inner.a[k], result)
+
+//@ func Heap.Peek
+//@   props C05
+//@   requires wfX(h)
+//@   panics when len(h.inner.a) == 0
+//@   ensures result == h.inner.a[0]
+//@   ensures forall j int {h.inner.a[j]} :: 0 <= j && j < len(h.inner.a) ==> !h.inner.lessFn(h.inner.a[j], result)
+
+// ---- ghost clients ----
+
+//@ func verifClientDrainSorted
+//@   props C05
+//@   requires wfX(h) && len(h.inner.a) >= 2
+//@   ensures true
+func verifClientDrainSorted[T any](h Heap[T]) {
+	// draining returns the items in non-decreasing order, Len counts down
+	n := h.Len()
+	x := h.Pop()
+	y := h.Pop()
+	//@ assert !h.inner.lessFn(y, x)
+	//@ assert len(h.inner.a) == n - 2
+	_, _, _ = x, y, n
+	return
+}
+
+//@ func verifClientPushPeek
+//@   props C05
+//@   requires wfX(h) && !h.inner.indexChanged.tracks
+//@   ensures true
+func verifClientPushPeek[T any](h Heap[T], v T) {
+	h.Push(v)
+	p := h.Peek()
+	//@ assert !h.inner.lessFn(v, p) && len(h.inner.a) == old(len(h.inner.a)) + 1
+	_ = p
+	return
+}
